@@ -16,7 +16,13 @@ from concurrent.futures import ThreadPoolExecutor
 
 from harness import tlc
 
-HOSTS = {'start': 'start.test', 'sub': 'sub.start.test', 'other': 'other.test', 'acc': 'acc.test', 'rej': 'rej.test'}
+HOSTS = {'start': 'start.test', 'sub': 'sub.start.test', 'other': 'other.test', 'acc': 'acc.test', 'rej': 'rej.test',
+         # names that merely END in the text of a list entry (no dot in front of it): other hosts, other domains
+         'alike_acc': 'notacc.test', 'alike_rej': 'notrej.test',
+         # the same host written with the root dot
+         'rejdot': 'rej.test.'}
+# the host class of Scope.tla that a concrete host stands for
+MODEL_HOSTC = {'alike_acc': 'other', 'alike_rej': 'other', 'rejdot': 'rej'}
 ROOT = 'http://start.test/any/dir/index.html'
 PATHS = ['/any/dir/f.html', '/any/dir/sub/f.html', '/any/f.html', '/any/other/f.html', '/inc/f.html', '/exc/f.html',
          '/exc/sub/f.html', '/any/dir/ACC.html', '/any/dir/REJ.html', '/any/dir/f.jpg', '/any/dir/',
@@ -52,13 +58,13 @@ def argv_of(c):
     if allow:
         a += ['--span-hosts-allow', ','.join(allow)]
     if c['domacc']:
-        a += ['--domains', 'start.test,acc.test']
+        a += ['--domains', 'start.test,Acc.TEST']
     if c['domrej']:
-        a += ['--exclude-domains', 'rej.test']
+        a += ['--exclude-domains', 'Rej.Test']
     if c['hostacc']:
-        a += ['--hostnames', 'start.test,acc.test']
+        a += ['--hostnames', 'start.test,ACC.test']
     if c['hostrej']:
-        a += ['--exclude-hostnames', 'rej.test']
+        a += ['--exclude-hostnames', 'REJ.test']
     if c['httpsonly']:
         a.append('--https-only')
     if c['followftp']:
@@ -98,7 +104,7 @@ def abstract_rec(r):
             prel = 'above'
         else:
             prel = 'sibling'
-    return {'scheme': r['scheme'], 'pscheme': r['pscheme'], 'hostc': r['hostc'], 'phostc': r['phostc'],
+    return {'scheme': r['scheme'], 'pscheme': r['pscheme'], 'hostc': MODEL_HOSTC.get(r['hostc'], r['hostc']), 'phostc': r['phostc'],
             'sameport': r['sameport'], 'level': r['level'], 'inline': r['inline'], 'try': r['tr'], 'prel': prel,
             'rxa': 'ACC' in p, 'rxr': 'REJ' in p, 'da': (p + '/').startswith('/inc/'), 'dr': (p + '/').startswith('/exc/'),   # '/inc' itself names the directory (is_subdir's documented reading)
            
